@@ -6,6 +6,7 @@ from ..core import (U, walk_local, calls_in, call_name, const, NOCONST, params, 
                     walk_stmts, arg_for, kwarg, path_conditions, enclosing_stmt_chain, dotted, param_default)
 from ..lin import lin, Lin
 from . import c07, c08
+from .common import interval_guard
 
 FOL = 'lib_trainer/omen/evaluate_password.py::find_omen_level'
 SCP = 'lib_scorer/omen_scorer.py::OmenScorer.parse'
@@ -81,6 +82,14 @@ def level_formula(fn, side):
     body = [s_ for s_ in fn.body if not (isinstance(s_, ast.Expr) and isinstance(s_.value, ast.Constant))]
     guards = [s_ for s_ in body if isinstance(s_, ast.If) and s_.body and isinstance(s_.body[-1], ast.Return) and const(s_.body[-1].value) == -1]
     feats['guards'] = sorted(norm(g.test) for g in guards)
+    # the guard in the ordering domain: whatever its spelling, does it reject exactly the lengths outside [LO, MAXLEN]?
+    try:
+        gtests = [ast.parse(g_, mode='eval').body for g_ in feats['guards']]
+    except SyntaxError:
+        gtests = []
+    for lo_ in ('NG', 'MINLEN'):
+        if gtests and any(lo_ in g_ for g_ in feats['guards']) and interval_guard(gtests, 'LEN', lo_, 'MAXLEN') == 'ok':
+            feats['guards'] = ['LEN < %s or LEN > MAXLEN' % lo_]
     tries = [s_ for s_ in body if isinstance(s_, ast.Try)]
     if len(tries) != 1:
         feats['error'] = 'no single try block'
@@ -421,26 +430,30 @@ def r5_length_domain(ctx, rule):
     facts = {}
     # training counts
     pf = ctx.fn(ALP + 'parse')
-    g1 = [U(s.test) for s in pf.body if isinstance(s, ast.If) and s.body and isinstance(s.body[-1], ast.Return)]
-    facts['training'] = g1
-    want_t = 'pw_len < self.min_length or pw_len > self.max_length'
-    if want_t not in g1:
-        ok = False
-        ctx.bad(rule, ALP + 'parse', 'training length guard %s' % g1, 'lengths ngram..max_length are trained on', facts, pf)
+    def returning_guards(f):
+        return [s.test for s in f.body if isinstance(s, ast.If) and s.body and isinstance(s.body[-1], ast.Return) and not s.orelse]
+
+    def length_guard(f, q, what, var, lo, hi, why):
+        """The returning guards of f that mention the length, taken together, must reject exactly the lengths outside [lo, hi]."""
+        gs = [t for t in returning_guards(f) if any(v in U(t) for v in ((var,) if isinstance(var, str) else var))]
+        facts[what] = [U(t) for t in gs]
+        v = interval_guard(gs, var, lo, hi) if gs else 'wrong'
+        if v == 'unknown':
+            ctx.unk(rule, q, '%s length guard %s is not understood' % (what, facts[what]), facts)
+            return True
+        if v == 'wrong':
+            ctx.bad(rule, q, '%s length guard %s' % (what, facts[what]), why, facts, f)
+            return False
+        return True
+    ok &= length_guard(pf, ALP + 'parse', 'training', ('pw_len', 'len(password)'), 'self.min_length', 'self.max_length',
+                       'lengths ngram..max_length are trained on')
     ff = ctx.fn(FOL)
     tp = params(ff)[0]
-    g2 = [U(s.test) for s in ff.body if isinstance(s, ast.If) and s.body and isinstance(s.body[-1], ast.Return)]
-    facts['third_pass'] = g2
-    if 'pw_len < %s.min_length or pw_len > %s.max_length' % (tp, tp) not in g2:
-        ok = False
-        ctx.bad(rule, FOL, 'third-pass length guard %s' % g2, 'the third pass must accept exactly the lengths the counts were '
-                'trained on (ngram <= len <= max_length, both inclusive)', facts, ff)
+    ok &= length_guard(ff, FOL, 'third-pass', ('pw_len', 'len(password)'), '%s.min_length' % tp, '%s.max_length' % tp,
+                       'the third pass must accept exactly the lengths the counts were trained on (ngram <= len <= max_length, '
+                       'both inclusive)')
     sf = ctx.fn(SCP)
-    g3 = [U(s.test) for s in sf.body if isinstance(s, ast.If) and s.body and isinstance(s.body[-1], ast.Return)]
-    facts['scorer'] = g3
-    if 'pass_len < self.ngram or pass_len > self.max_len' not in g3:
-        ok = False
-        ctx.bad(rule, SCP, 'scorer length guard %s' % g3, 'ngram <= len <= number of LN lines', facts, sf)
+    ok &= length_guard(sf, SCP, 'scorer', ('pass_len', 'len(password)'), 'self.ngram', 'self.max_len', 'ngram <= len <= number of LN lines')
     gf = ctx.fn(LL)
     g4 = [U(n.test) for n in walk_local(gf) if isinstance(n, ast.If) and 'cur_length' in U(n.test)]
     facts['guesser'] = g4
